@@ -30,7 +30,14 @@ def scenarios(seed, tier):
     n = 300 if tier == 'quick' else 3000
     rnd = random.Random(seed * 7919 + 5)
     for i in range(n):
-        yield 'st%d' % i, ST.gen_case(random.Random(rnd.getrandbits(48)))
+        r1 = random.Random(rnd.getrandbits(48))
+        c = ST.gen_case(r1)
+        ok = not any(f.startswith('malformed') for f in c.get('features', []))
+        if ok and i % 10 == 3:
+            c = ST.focus_blocks(c, r1)
+        elif ok and i % 10 == 7:
+            c = ST.focus_holding(c, r1)
+        yield 'st%d' % i, c
 
 
 def run_case(case, drv):
